@@ -74,7 +74,7 @@ func (w *c12World) add(clause string, seq uint64, format string, a ...any) {
 	w.viols = append(w.viols, Viol{Clause: clause, Seq: seq, Msg: fmt.Sprintf(format, a...)})
 }
 
-var c12IDs = []string{"plain", "ünïcödé", "with space", "q\"uote", "<tag>&amp;", "back\\slash", "new\nline", "日本語", "emoji😀", "nul\x00byte", "bad\xffutf8", "{\"json\":1}", "tab\t"}
+var c12IDs = []string{"plain", "ünïcödé", "with space", "q\"uote", "<tag>&amp;", "back\\slash", "new\nline", "日本語", "emoji😀", "nul\x00byte", "bad\xffutf8", "{\"json\":1}", "tab\t", " lead", "trail ", "\r\nboth\u3000"}
 
 func c12ID(r *simrt.Rand, n int) string { return fmt.Sprintf("%s#%d", c12IDs[r.Intn(len(c12IDs))], n) }
 
